@@ -83,6 +83,16 @@ class Compiler:
 
     @_compile.register
     def _select(self, node: ast.Select):
+        # A subquery compiled as part of an expression sets the table
+        # named in its own FROM clause: restore the table of the
+        # enclosing query afterwards.
+        table = self.table
+        try:
+            return self._compile_select(node)
+        finally:
+            self.table = table
+
+    def _compile_select(self, node):
 
         # Compile the FROM clause.
         c_from_expr = self._compile_from(node.from_clause)
